@@ -1,4 +1,8 @@
-HOOK_COMMITS = ["78b77a3 verif hook H3: record the conditional-inclusion state before every directive"]
+HOOK_COMMITS = [
+  "78b77a3 verif hook H3: record the conditional-inclusion state before every directive",
+  "95305c4 verif hook H1: keep the syntax tree handed to the formatter by export_to_hlsl / export_to_msl",
+  "4613e7a verif hook H4: record the slot allocator state after every root definition in assign_api_bindings",
+]
 ENGINES = [
     {"name": "e1-enumerate", "path": "harness/src/engine.rs", "serves_properties": [], "kind_free_text": "stateless bounded-exhaustive enumeration of inputs over the real code against a reference model / relational oracle"},
     {"name": "e2-bfs", "path": "harness/src/engine.rs", "serves_properties": [], "kind_free_text": "explicit-state breadth-first search over the real transition function with canonical state deduplication"},
@@ -16,3 +20,8 @@ CLAIMED.append(check("C11", "model_checking",
   "Explicit-state BFS over directive histories: each transition appends one of 13 directive letters and re-runs the real preprocessor; the state is the real ConditionChain + macro table (hook H3) paired with a C conditional-inclusion model, deduplicated on the pair; on every transition the active flag, chain depth, defined set, surviving text (end-to-end through preprocess+unlex with a closing suffix) and the unmatched/unterminated errors must agree with the model. Depth 9 quick / 12 thorough, plus every directive sequence of length <= 5/6 end to end, plus every condition string operand (op operand){0..3} with !/!! prefixes and every parenthesised group against a u64 precedence evaluator.",
   "The reference model and evaluator are ours (C11 6.10.1 restricted to the operators rssl supports). Histories that C makes ill-formed without the property listing them (second #else, #elif after #else) are only required not to panic.",
   "explicit-state BFS over the real transition function with reference-model conformance on every transition", "DESIGN.md section 5 C11", "e2-bfs"))
+
+CLAIMED.append(check("C09", "exploration",
+  "Bounded-exhaustive enumeration of syntax trees through the real formatter and the real preprocessor+parser: every expression tree of depth <= 2 over the full constructor alphabet (10 unary, 30 binary, ternary, subscript, member, calls with 0-2 arguments and a template argument, casts, sizeof) with ordered leaves, the same trees with each leaf kind (qualified names, int/uint/float/bool literals) substituted uniformly and at the first/last position, every spine tree of depth 3 over the full alphabet (thorough: depth 4 and 5 over class alphabets), every literal kind over boundary values incl. negative zero/negative/NaN nodes, double round trip (parse, print, parse) of the repository's .rssl inputs and of 280 statement/declarator/declaration forms, and the trees the HLSL exporter really builds (hook H1) for those inputs. Each failing tree is shrunk to the smallest failing sub-shape, which is the violation class.",
+  "Parser ambiguity nodes are resolved in both trees with the type checker's own rule against a fixed type environment. MSL printing is not re-read (no Metal parser); the Metal-only BracedInit node is outside. Depth 6 of the property is not reached.",
+  "bounded exhaustive enumeration of syntax trees with a print/parse round-trip oracle (small-scope model checking of formatter+parser)", "DESIGN.md section 5 C09", "e1-enumerate"))
